@@ -353,7 +353,8 @@ func runC07Round(w *World, round int) {
 	pk := w.P.PApp.ProviderKeeper
 	chainA, _ := pk.GetConsumerChainId(w.P.Ctx(), la.CID)
 	chainB, _ := pk.GetConsumerChainId(w.P.Ctx(), lb.CID)
-	// stake layouts: undelegations and redelegations away from the future signers
+	// stake layouts: undelegations and redelegations away from the future signers; for the third validator the fractional power parts of the two
+	// categories add up to a whole unit (1.5 + 1.7), so converting them to power separately loses one
 	d := w.Accts["deleg0"]
 	var specs []TxSpec
 	for _, v := range w.createdVals()[:4] {
@@ -365,7 +366,7 @@ func runC07Round(w *World, round int) {
 	vs := w.createdVals()
 	specs = append(specs, TxSpec{Signer: d, Msgs: []sdk.Msg{MsgUndelegate(d, vs[0], 2_500_000)}, Tag: "undelegate"})
 	specs = append(specs, TxSpec{Signer: d, Msgs: []sdk.Msg{MsgRedelegate(d, vs[1], vs[3], 3_000_000)}, Tag: "redelegate"})
-	specs = append(specs, TxSpec{Signer: d, Msgs: []sdk.Msg{MsgUndelegate(d, vs[2], 1_000_000), MsgRedelegate(d, vs[2], vs[3], 1_500_000)}, Tag: "undelegate+redelegate"})
+	specs = append(specs, TxSpec{Signer: d, Msgs: []sdk.Msg{MsgUndelegate(d, vs[2], 1_500_000), MsgRedelegate(d, vs[2], vs[3], 1_700_000)}, Tag: "undelegate+redelegate"})
 	w.Tick()
 	w.ProviderStep(specs, false, nil)
 	for i := 0; i < 6; i++ {
